@@ -17,7 +17,7 @@ static mcx::Ctx ctx;
 struct Op { int dim, node; double target; int node2 = -1; double target2 = 0; };   // node2 >= 0: two nodes dragged in the same step
 typedef array<double, 2> XY;
 struct EdgeSpec { int a, b; int viaNode, viaCorner; };   // viaNode<0: straight; else bent round that node's corner
-struct Scene { vector<XY> pos; vector<EdgeSpec> edges; };
+struct Scene { vector<XY> pos; vector<EdgeSpec> edges; vector<XY> half; vector<double> rzbox; };   // half: per-node half sizes (default HW x HW); rzbox: explicit resize target {x, y, w, h}
 static const double HW = 5;
 static bool segHitsRect(double ax, double ay, double bx, double by, double cx, double cy, double hw, double eps) {
     double x0 = cx - hw + eps, x1 = cx + hw - eps, y0 = cy - hw + eps, y1 = cy + hw - eps; if (x0 >= x1 || y0 >= y1) return false;
@@ -183,7 +183,8 @@ static void judge_state(const Nodes &nodes, const Edges &es, const Scene &sc, co
     for (size_t i = 0; i < N; i++) for (size_t j = i + 1; j < N; j++) {
         double ox = min(nodes[i]->rect->getMaxX(), nodes[j]->rect->getMaxX()) - max(nodes[i]->rect->getMinX(), nodes[j]->rect->getMinX()), oy = min(nodes[i]->rect->getMaxY(), nodes[j]->rect->getMaxY()) - max(nodes[i]->rect->getMinY(), nodes[j]->rect->getMinY());
         if (ox > 1e-6 && oy > 1e-6) ctx.violation("node_overlap", {"layout"}, desc, mcx::fmt("nodes %zu,%zu overlap %gx%g", i, j, ox, oy)); }
-    for (size_t i = 0; i < N && checkSizes; i++) { double ww = wantSize ? (*wantSize)[i][0] : 2 * HW, wh = wantSize ? (*wantSize)[i][1] : 2 * HW; if (fabs(nodes[i]->rect->width() - ww) > 1e-9 || fabs(nodes[i]->rect->height() - wh) > 1e-9) ctx.violation("node_resized", {"layout"}, desc, mcx::fmt("node %zu is %gx%g, expected %gx%g", i, nodes[i]->rect->width(), nodes[i]->rect->height(), ww, wh)); }
+    for (size_t i = 0; i < N && checkSizes; i++) { double ww = wantSize ? (*wantSize)[i][0] : 2 * HW, wh = wantSize ? (*wantSize)[i][1] : 2 * HW; double tolz = (wantSize && (fabs(ww - 2 * HW) > 1e-9 || fabs(wh - 2 * HW) > 1e-9)) ? 0.05 : 1e-9;   /* a resize target is approached iteratively: C13 has no size clause for it, only for the untouched nodes */
+        if (fabs(nodes[i]->rect->width() - ww) > tolz || fabs(nodes[i]->rect->height() - wh) > tolz) ctx.violation("node_resized", {"layout"}, desc, mcx::fmt("node %zu is %gx%g, expected %gx%g", i, nodes[i]->rect->width(), nodes[i]->rect->height(), ww, wh)); }
     for (size_t ei = 0; ei < es.size(); ei++) {
         ConstEdgePoints path; es[ei]->getPath(path);
         if ((int)path.front()->node->id != sc.edges[ei].a || (int)path.back()->node->id != sc.edges[ei].b || path.front()->rectIntersect != EdgePoint::CENTRE || path.back()->rectIntersect != EdgePoint::CENTRE) ctx.violation("path_ends_changed", {"layout"}, desc);
@@ -215,21 +216,34 @@ struct JudgeEachIteration : cola::TestConvergence {
 };
 // a resize request delivered through the PreIteration callback before the first iteration (node rz grows to 16x24 about its centre)
 struct ResizeOnce : cola::PreIteration { cola::Resizes rz; cola::Resize req; int calls = 0; ResizeOnce(const cola::Resize &r) : cola::PreIteration(rz), req(r) {} bool operator()() { rz.clear(); if (calls++ == 0) rz.push_back(req); return true; } };
-static void layout_case(const Scene &sc, double idealLength, int extraEdges, int resizeNode = -1) {
+// judges the state RIGHT AFTER a resize has been applied (before the next iteration's moves can tidy anything up)
+struct JudgingAddon : ColaTopologyAddon {
+    const Scene *sc; const string *desc; const vector<XY> *want;
+    JudgingAddon(Nodes &n, Edges &e, const Scene *s, const string *d, const vector<XY> *w) : ColaTopologyAddon(n, e), sc(s), desc(d), want(w) {}
+    cola::TopologyAddonInterface *clone(void) const { return new JudgingAddon(*this); }
+    void handleResizes(const cola::Resizes &rl, unsigned n, std::valarray<double> &X, std::valarray<double> &Y, cola::CompoundConstraints &ccs, vpsc::Rectangles &bbs, cola::RootCluster *ch) {
+        ColaTopologyAddon::handleResizes(rl, n, X, Y, ccs, bbs, ch);
+        if (!rl.empty()) judge_state(topologyNodes, topologyRoutes, *sc, *desc + " (right after the resize)", want);
+    }
+};
+static const double RZW[3] = {16, 50, 14}, RZH[3] = {24, 14, 50};
+static void layout_case(const Scene &sc, double idealLength, int extraEdges, int resizeNode = -1, int rzv = 0) {
     Nodes nodes; size_t N = sc.pos.size(); vpsc::Rectangles rs;
-    for (size_t i = 0; i < N; i++) { vpsc::Rectangle *r = new vpsc::Rectangle(sc.pos[i][0] - HW, sc.pos[i][0] + HW, sc.pos[i][1] - HW, sc.pos[i][1] + HW); rs.push_back(r); nodes.push_back(new Node(i, r)); }
+    auto hx = [&](size_t i) { return sc.half.empty() ? HW : sc.half[i][0]; }; auto hy = [&](size_t i) { return sc.half.empty() ? HW : sc.half[i][1]; };
+    for (size_t i = 0; i < N; i++) { vpsc::Rectangle *r = new vpsc::Rectangle(sc.pos[i][0] - hx(i), sc.pos[i][0] + hx(i), sc.pos[i][1] - hy(i), sc.pos[i][1] + hy(i)); rs.push_back(r); nodes.push_back(new Node(i, r)); }
     Edges es; vector<cola::Edge> ces;
     for (size_t k = 0; k < sc.edges.size(); k++) { const EdgeSpec &e = sc.edges[k]; EdgePoints ps; ps.push_back(new EdgePoint(nodes[e.a], EdgePoint::CENTRE)); if (e.viaNode >= 0) ps.push_back(new EdgePoint(nodes[e.viaNode], (EdgePoint::RectIntersect)e.viaCorner)); ps.push_back(new EdgePoint(nodes[e.b], EdgePoint::CENTRE)); es.push_back(new Edge(k, idealLength, ps)); ces.push_back(cola::Edge(e.a, e.b)); }
     if (extraEdges >= 1 && N >= 3) ces.push_back(cola::Edge(0, 2)); if (extraEdges >= 2 && N >= 3) ces.push_back(cola::Edge(1, 2));
-    string desc = scene_str(sc) + mcx::fmt(" ConstrainedFDLayout(idealLength=%g, %d extra graph edge(s)) + ColaTopologyAddon, run()", idealLength, extraEdges) + (resizeNode >= 0 ? mcx::fmt(" with node %d resized to 16x24 before the first iteration", resizeNode) : string());
-    vector<XY> want(N, XY{2 * HW, 2 * HW}); if (resizeNode >= 0) want[resizeNode] = {16, 24};
+    string desc = scene_str(sc) + mcx::fmt(" ConstrainedFDLayout(idealLength=%g, %d extra graph edge(s)) + ColaTopologyAddon, run()", idealLength, extraEdges) + (resizeNode >= 0 ? mcx::fmt(" with node %d resized to %gx%g before the first iteration", resizeNode, RZW[rzv], RZH[rzv]) : string());
+    vector<XY> want(N, XY{2 * HW, 2 * HW}); for (size_t i = 0; i < N; i++) want[i] = {2 * hx(i), 2 * hy(i)}; if (resizeNode >= 0) want[resizeNode] = {RZW[rzv], RZH[rzv]};
+    if (resizeNode >= 0 && !sc.rzbox.empty()) { want[resizeNode] = {sc.rzbox[2], sc.rzbox[3]}; desc += mcx::fmt(" [target box x=%g y=%g %gx%g, node sizes differ]", sc.rzbox[0], sc.rzbox[1], sc.rzbox[2], sc.rzbox[3]); }
     ctx.announce(desc); ctx.count("transitions"); ctx.count("evaluations");
     try {
         JudgeEachIteration test(nodes, es, sc, desc); test.want = &want;
-        ResizeOnce pre(resizeNode >= 0 ? cola::Resize(resizeNode, sc.pos[resizeNode][0] - 8, sc.pos[resizeNode][1] - 12, 16, 24) : cola::Resize(0, 0, 0, 1, 1));
+        ResizeOnce pre(resizeNode >= 0 && !sc.rzbox.empty() ? cola::Resize(resizeNode, sc.rzbox[0], sc.rzbox[1], sc.rzbox[2], sc.rzbox[3]) : resizeNode >= 0 ? cola::Resize(resizeNode, sc.pos[resizeNode][0] - RZW[rzv] / 2, sc.pos[resizeNode][1] - RZH[rzv] / 2, RZW[rzv], RZH[rzv]) : cola::Resize(0, 0, 0, 1, 1));
         cola::ConstrainedFDLayout alg(rs, ces, idealLength, cola::StandardEdgeLengths, &test, resizeNode >= 0 ? &pre : nullptr);
         alg.setAvoidNodeOverlaps(true);
-        ColaTopologyAddon addon(nodes, es); alg.setTopology(&addon);
+        JudgingAddon addon(nodes, es, &sc, &desc, &want); alg.setTopology(&addon);
         alg.run(true, true);
         judge_state(nodes, es, sc, desc + " (after run)", &want); ctx.cls("layout_iterations", mcx::fmt("%d", test.iters));
     } catch (vpsc::CriticalFailure &f) { ctx.library_abort(f.what(), desc); judge_state(nodes, es, sc, desc + " (state left by the assertion)", nullptr, resizeNode < 0); }
@@ -238,8 +252,36 @@ static void layout_case(const Scene &sc, double idealLength, int extraEdges, int
     for (auto e : es) delete e; for (auto n : nodes) delete n;   /* node variables belong to the layout */ for (auto r : rs) delete r;
 }
 static void explore_resize(const char *name, const vector<Scene> &scs, double len) {
-    ctx.phase(mcx::fmt("%s: %zu start scenes x every node resized (10x10 -> 16x24) through PreIteration, then ConstrainedFDLayout::run with topology addon", name, scs.size()));
-    for (auto &sc : scs) for (size_t v = 0; v < sc.pos.size(); v++) { if (ctx.stopped()) return; if (!ctx.next()) continue; ctx.sample(scene_str(sc), 1); layout_case(sc, len, 0, (int)v); ctx.done_case(); }
+    ctx.phase(mcx::fmt("%s: %zu start scenes x every node resized (10x10 -> 16x24 / 50x14 / 14x50) through PreIteration, then ConstrainedFDLayout::run with topology addon", name, scs.size()));
+    for (auto &sc : scs) for (size_t v = 0; v < sc.pos.size(); v++) for (int z = 0; z < 3; z++) { if (ctx.stopped()) return; if (!ctx.next()) continue; ctx.sample(scene_str(sc), 1); layout_case(sc, len, 0, (int)v, z); ctx.done_case(); }
+}
+
+// nodes of different sizes: a small node A, a tall node B and a big node N; the edge runs A -> a corner of B -> N (it ENDS in the node that is
+// resized), and N is grown sideways across B and A (and the other way), so that its flank sweeps over the place where the edge enters it
+static vector<Scene> scenes_hetero() {
+    vector<Scene> out;
+    struct Fam { XY hb, hn; vector<double> ax, ay, by, ny; double bx, nx; vector<vector<double>> boxes; };   // boxes: {dx0, dy0, w, h} relative to N's centre (mirrored with the scene)
+    vector<Fam> fams = {
+        {{10, 30}, {20, 20}, {0}, {0, 40, 80, 120}, {40, 60, 80}, {0, 40, 80, 120}, 40, 100, {{-170, -20, 190, 40}, {-120, -20, 240, 40}, {-20, -70, 40, 140}}},
+        {{10, 30}, {50, 50}, {0, 20}, {0, 30, 60, 90, 120}, {60, 90, 120}, {60, 100, 140}, 70, 150, {{-120, -50, 340, 100}, {-170, -50, 220, 100}, {-50, -120, 100, 240}}},
+    };
+    for (auto &F : fams) for (double ax : F.ax) for (double ay : F.ay) for (double by : F.by) for (double ny : F.ny) for (int mirror = 0; mirror < 2; mirror++) for (int k = 0; k < 4; k++) {
+        double sgn = mirror ? -1 : 1; Scene s; s.half = {{5, 5}, F.hb, F.hn}; s.pos = {{sgn * ax, ay}, {sgn * F.bx, by}, {sgn * F.nx, ny}};
+        XY q{s.pos[1][0] + ((k == 0 || k == 1) ? F.hb[0] : -F.hb[0]), s.pos[1][1] + ((k == 0 || k == 3) ? F.hb[1] : -F.hb[1])};
+        vpsc::Rectangle rb(s.pos[1][0] - F.hb[0], s.pos[1][0] + F.hb[0], s.pos[1][1] - F.hb[1], s.pos[1][1] + F.hb[1]), ra(s.pos[0][0] - 5, s.pos[0][0] + 5, s.pos[0][1] - 5, s.pos[0][1] + 5);
+        double ox = min(ra.getMaxX(), rb.getMaxX()) - max(ra.getMinX(), rb.getMinX()), oy = min(ra.getMaxY(), rb.getMaxY()) - max(ra.getMinY(), rb.getMinY()); if (ox > 0 && oy > 0) continue;
+        if (segHitsRectWH(s.pos[0][0], s.pos[0][1], q[0], q[1], &rb, 1e-9) || segHitsRectWH(q[0], q[1], s.pos[2][0], s.pos[2][1], &rb, 1e-9)) continue;
+        double t = crs(s.pos[0][0], s.pos[0][1], q[0], q[1], s.pos[2][0], s.pos[2][1]), c1 = crs(s.pos[0][0], s.pos[0][1], q[0], q[1], s.pos[1][0], s.pos[1][1]);
+        if (fabs(t) < 1e-9 || (t > 0) != (c1 > 0)) continue;
+        s.edges = {{0, 2, 1, k}};
+        for (auto &bx : F.boxes) { Scene s2 = s; double cx = s.pos[2][0], cy = s.pos[2][1], x0 = mirror ? cx - (bx[0] + bx[2]) : cx + bx[0]; s2.rzbox = {x0, cy + bx[1], bx[2], bx[3]}; out.push_back(s2); }
+    }
+    return out;
+}
+static void explore_resize_hetero() {
+    vector<Scene> scs = scenes_hetero();
+    ctx.phase(mcx::fmt("nodes of different sizes, edge A -> corner of B -> N ending in the resized node N: %zu scenes (positions x corner x mirror x 3 target boxes), ConstrainedFDLayout::run with topology addon", scs.size()));
+    for (auto &sc : scs) { if (ctx.stopped()) return; if (!ctx.next()) continue; ctx.sample(scene_str(sc), 1); layout_case(sc, 60, 0, 2, 0); ctx.done_case(); }
 }
 static void explore_layout(const char *name, const vector<Scene> &scs, const vector<double> &lens) {
     ctx.phase(mcx::fmt("%s: %zu start scenes x ideal lengths x 0..2 extra graph edges, full ConstrainedFDLayout::run with topology addon", name, scs.size()));
@@ -257,7 +299,7 @@ int main(int argc, char **argv) {
     explore("4 abutting nodes on 3x3 cells, one edge", scenes4abut(3, 3), 1, {0, 10, 20});
     explore_layout("3 nodes, edge bent round node 2", scenes3(true), {15, 45}); explore_layout("3 nodes, straight edge", scenes3(false), {25});
     explore_layout("4 nodes, edge bent round node 2, node 3 free", scenes4bent(), {15, 45});
-    explore_resize("3 nodes, edge bent round node 2", scenes3(true), 30); explore_resize("3 nodes, straight edge", scenes3(false), 30);
+    explore_resize("3 nodes, edge bent round node 2", scenes3(true), 30); explore_resize("3 nodes, straight edge", scenes3(false), 30); explore_resize_hetero();
     if (T) { explore_layout("3 nodes, straight edge", scenes3(false), {10, 60}); explore_layout("4 nodes, two straight edges", scenes4(), {15, 45}); explore_pairs("4 abutting nodes on 4x4 cells, one edge", scenes4abut(4, 4), {0, 10, 20, 30}); explore("4 abutting nodes on 3x3 cells, one edge", scenes4abut(3, 3), 2, {0, 10, 20});
              explore("3 nodes, straight edge", scenes3(false), 3, {0, 20, 40, 60}); explore("3 nodes, edge bent round node 2", scenes3(true), 3, {0, 20, 40, 60}); }
     return ctx.finish();
